@@ -67,9 +67,11 @@ def _weight_kind(vc, P):
     return None
 
 
-for _shape in ("tree", "two_partitions", "input_root1", "input_root2"):
+for _shape in ("tree", "two_partitions", "input_root1", "input_root2", "two_partitions.default_nary"):
     for _sp in ("cp", "cp-t", "tucker"):
         def _h(vc, _shape=_shape, _sp=_sp):
+            _default_nary = _shape.endswith(".default_nary")      # the caller relies on the documented fallback nary factory = sum_weight_factory
+            _shape = _shape.split(".")[0]
             g, roots, vs = _rg(vc, _shape)
             rg = g.build(roots)
             Ki, Ks, Kc, C = vc.int("num_input_units", lo=1), vc.int("num_sum_units", lo=1), vc.int("num_classes", lo=1), vc.int("C", lo=2)
@@ -79,8 +81,9 @@ for _shape in ("tree", "two_partitions", "input_root1", "input_root2"):
             sum_weight_factory = vc.call(f"{TU}:parameterization_to_factory", param)
             nary = PartialVal(vc.I.wrap_resolved(vc.repo.resolve_name(vc.repo.module_by_path(SP), "mixing_weight_factory")), [], {"param_factory": sum_weight_factory})
             input_factory = PartialVal(ClassVal(vc.repo.lookup(f"{SL}:CategoricalLayer")), [], {"num_categories": C})
+            kw = {} if _default_nary else {"nary_sum_weight_factory": nary}
             sc = vc.call((rg, "build_circuit"), input_factory=input_factory, sum_product=_sp, sum_weight_factory=sum_weight_factory,
-                         nary_sum_weight_factory=nary, num_input_units=Ki, num_sum_units=Ks, num_classes=Kc)
+                         num_input_units=Ki, num_sum_units=Ks, num_classes=Kc, **kw)
             layers = list(sc.fields["_nodes"])
             ins = sc.fields["_in_nodes"]
             sums = [l for l in layers if l.cls.name == "SumLayer"]
@@ -89,7 +92,7 @@ for _shape in ("tree", "two_partitions", "input_root1", "input_root2"):
                 kind = _weight_kind(vc, vc.attr(s, "weight"))
                 arity = vc.attr(s, "arity")
                 nary_sum = not vc.must(to_z3(arity) == 1)
-                vc.ensure(f"sum{i}.weight_from_the_callers_factory", kind is not None and kind[0] == ("mixing" if nary_sum else "softmax"))
+                vc.ensure(f"sum{i}.weight_from_the_callers_factory", kind is not None and kind[0] == ("mixing" if nary_sum and not _default_nary else "softmax"))
                 vc.ensure(f"sum{i}.normalised_along_the_input_axis", kind is not None and kind[1])
             inputs = [l for l in layers if S.cls_is(vc, l, "InputLayer")]
             vc.ensure("input_layers_are_the_callers_categoricals", all(l.cls.name == "CategoricalLayer" and vc.must(to_z3(vc.attr(l, "num_categories")) == to_z3(C)) and
